@@ -18,7 +18,8 @@ RULE = ("temperature: all 16 ordered pairs of {K, Cel, degF, degR} x every admis
         "(B/Np <-> PR/AR, each dB-type unit <-> its linear counterpart, B <-> Np, the dB-type pairs in the table) in both "
         "directions x admissible prefixes x levels within +-200 dB / ratios within 1e+-20, every unit to itself with all "
         "prefix combinations, level addition/subtraction for every bel-type unit (same or mixed prefix), the documented "
-        "examples verbatim, histories in which 2-3 level operands are built once and reused across 3-7 additions, "
+        "examples verbatim, level sums / differences with array magnitudes on both operands (equal shapes, stronger and weaker level "
+        "changing from element to element) or array with scalar, judged element by element, histories in which 2-3 level operands are built once and reused across 3-7 additions, "
         "subtractions, reads and conversions to the linear counterpart (every result expected from the operands as "
         "constructed; `+=` / `-=` included and followed), every judged conversion with its target named in one of eight ways, "
         "70% of the judged conversions repeated with an absolute or relative uncertainty attached (same value "
@@ -528,6 +529,66 @@ def level_stream(ctx, cat, count):
             ctx.violation("level:units:%s" % s, "result of %s %s %s is reported in %r" % (eu, "-" if sub else "+", ev, gunits), replay)
 
 
+def level_array_stream(ctx, cat, count):
+    """array-valued levels on both operands (equal shapes) or array with scalar: the power sum element by element"""
+    import numpy as np
+    from scinumtools.units import Quantity
+    rng = ctx.rng
+    _, ut = U.units_mod()
+    units = [s for s in ut.LogarithmicUnitType.process if s != "Np"]
+    cases = []
+    for _ in range(count):
+        s_ = rng.choice(units)
+        pa, pb = rng.choice([("d", "d"), ("d", "d"), (None, None), ("d", None), (None, "d")])
+        n = rng.randint(2, 4)
+        sub = rng.random() < 0.4
+        scalar_b = rng.random() < 0.3
+        a_db = [rng.uniform(-100, 100) for _ in range(n)]
+        if sub:
+            b_db = [v - rng.uniform(0.5, 60) for v in a_db]
+            if scalar_b:
+                b_db = [min(b_db) - 1.0] * n
+        else:
+            b_db = [v + rng.uniform(-60, 60) for v in a_db]        # stronger / weaker differs from element to element
+            if scalar_b:
+                b_db = [b_db[0]] * n
+        a = [v / (10 * pmag(cat, pa)) for v in a_db]
+        b = [v / (10 * pmag(cat, pb)) for v in b_db]
+        cases.append((s_, pa, pb, a, b, sub, scalar_b))
+    reqs = []
+    for s_, pa, pb, a, b, sub, scalar_b in cases:
+        for x, y in zip(a, b):
+            reqs.append({"k": "level", "sub": sub, "u": cat.req_items([(pa, s_, (1, 1))]), "v": cat.req_items([(pb, s_, (1, 1))]),
+                         "x": U.f2b(x), "y": U.f2b(y)})
+    res = iter(ctx.driver.ask_many(reqs))
+    for s_, pa, pb, a, b, sub, scalar_b in cases:
+        rs = [next(res) for _ in a]
+        eu, ev = (pa or "") + s_, (pb or "") + s_
+        op = "-" if sub else "+"
+        bb = b[0] if scalar_b else b
+        replay = {"stream": "level-array", "a": a, "u": eu, "b": bb, "v": ev, "sub": sub}
+        ctx.count("stream.level-array-" + ("sub" if sub else "add"))
+        ctx.case("level-array|%s|%s|%r|%r|%s" % (eu, ev, a, bb, sub), True, {"a": a, "u": eu, "b": bb, "v": ev, "sub": sub} if len(a) == 3 else None)
+        if any("ok" not in r for r in rs):
+            ctx.disagreement("level-array", replay, "driver error")
+            continue
+        want = [U.b2f(r["ok"]["spec"]) for r in rs]
+        with warnings.catch_warnings(), np.errstate(all="ignore"):
+            warnings.simplefilter("ignore")
+            try:
+                qa, qb = Quantity(list(a), eu), Quantity(list(bb) if isinstance(bb, list) else bb, ev)
+                qr = (qa - qb) if sub else (qa + qb)
+                got, gunits, gshape = U.as_list(qr.value()), qr.units(), list(np.shape(qr.value()))
+            except Exception as e:
+                ctx.violation("level-array:refused:%s" % s_, "%r %s %s %r %s raises %r" % (a, eu, op, bb, ev, e), replay)
+                continue
+        if gshape != [len(a)] or not U.close(got, want, 1e-9, 1e-11 / pmag(cat, pa)):
+            ctx.violation("level-array:%s:%s" % ("sub" if sub else "add", s_),
+                          "%r %s %s %r %s = %r (shape %s); element by element the power sum is %r" % (a, eu, op, bb, ev, got, gshape, want), replay)
+        elif gunits != eu:
+            ctx.violation("level:units:%s" % s_, "result of %s %s %s is reported in %r" % (eu, op, ev, gunits), replay)
+
+
 # ------------------------------------------------------------------ histories: operands reused across operations
 def gen_level_history(cat, rng, units):
     s = rng.choice(units)
@@ -796,6 +857,7 @@ def correspond(ctx: Ctx, scale=1):
     cases = judged + mixed_cases(ctx, cat, (3000 if ctx.tier == "thorough" else 400) * scale)
     run_conv_cases(ctx, cat, cases)
     level_stream(ctx, cat, (2000 if ctx.tier == "thorough" else 300) * scale)
+    level_array_stream(ctx, cat, (1000 if ctx.tier == "thorough" else 120) * scale)
     level_history_stream(ctx, cat, (1500 if ctx.tier == "thorough" else 200) * scale)
     doc_examples(ctx)
     env_class_history(ctx, cat, judged, (25 if ctx.tier == "thorough" else 5) * scale)   # last: it changes global tables
